@@ -97,6 +97,9 @@ MICH = [
     [],
     [{'prim': 'parameter', 'args': [{'prim': 'unit'}]}, {'prim': 'storage', 'args': [{'prim': 'unit'}]},
      {'prim': 'code', 'args': [[{'prim': 'CDR'}, {'prim': 'NIL', 'args': [{'prim': 'operation'}]}, {'prim': 'PAIR'}]]}],
+    # the same script with its sections in another order: the encoding keeps the order it is given
+    [{'prim': 'storage', 'args': [{'prim': 'unit'}]}, {'prim': 'parameter', 'args': [{'prim': 'unit'}]},
+     {'prim': 'code', 'args': [[{'prim': 'CDR'}, {'prim': 'NIL', 'args': [{'prim': 'operation'}]}, {'prim': 'PAIR'}]]}],
 ]
 MICH_BY_BYTES = {mich(e): e for e in MICH}
 
